@@ -8,7 +8,8 @@ handshaken connections.  Round by round the scenario makes connections busy or l
 (ordinary traffic, or only the late answer to a request that timed out client-side and left an orphaned stream id)
 and lets the node answer the heartbeat OPTIONS at once / late but within the timeout (staggered
 fractions of the timeout over the connections of one round) / with an ERROR / with an unexpected
-message / not at all, or closes the connection underneath.  What the node received per
+message / not at all, closes the connection underneath, or the send step itself fails with an error
+that is not a ConnectionException (socket not writable -> ConnectionBusy, transport refusing data).  What the node received per
 connection and round, the connection flags, the owners' ``return_connection`` calls and the
 request-id accounting before/after each round are judged.
 """
@@ -85,7 +86,8 @@ class Holder(object):
             self.conns.remove(conn)
 
 
-TREATMENTS = ['ok', 'ok', 'ok', 'ok', 'error', 'silent', 'unexpected', 'close-at-round', 'reset-at-round']
+TREATMENTS = ['ok', 'ok', 'ok', 'ok', 'ok', 'error', 'silent', 'unexpected', 'close-at-round', 'reset-at-round', 'not-writable', 'push-raises']
+SEND_FAULTS = ('not-writable', 'push-raises')     # the send step itself fails, with an error that is not a ConnectionException
 
 
 def run_history(seed, quick):
@@ -151,7 +153,7 @@ def run_history(seed, quick):
     viol = []
     stats = {'rounds': 0, 'conn_rounds': 0, 'idle_ok': 0, 'busy': 0, 'failed': 0, 'silent': 0, 'closed_underneath': 0, 'dead_found': 0,
              'capacity_checks': 0, 'return_calls_seen': 0, 'heartbeats_at_node': 0, 'control_rounds': 0, 'pool_rounds': 0, 'replaced_seen': 0,
-             'raced_close': 0, 'collateral': 0, 'owner_still_lists': 0, 'ambiguous': 0, 'slow_ok': 0, 'rounds_3_slow': 0, 'late_answers': 0, 'requests_left_to_time_out': 0, 'busy_by_late_answer_only': 0}
+             'raced_close': 0, 'collateral': 0, 'owner_still_lists': 0, 'ambiguous': 0, 'slow_ok': 0, 'rounds_3_slow': 0, 'late_answers': 0, 'requests_left_to_time_out': 0, 'send_faults': 0, 'busy_by_late_answer_only': 0}
     ret_log = []         # (owner, conn, t)
 
     def wrap_owner(o):
@@ -245,10 +247,16 @@ def run_history(seed, quick):
                             nfail += 1
                     if tr == 'ok' and slow_round:
                         tr = ('slow', rng.choice([0.15, 0.3, 0.4, 0.5, 0.6, 0.7, 0.8, 0.9]))
-                    if tr in ('close-at-round', 'reset-at-round'):
+                    if tr == 'not-writable':
+                        c._socket_writable = False         # what a reactor does under back-pressure: send_msg raises ConnectionBusy
+                    elif tr == 'push-raises':
+                        def broken_push(data, c=c):
+                            raise RuntimeError("transport of connection %d refuses to queue data (event loop closed)" % c.sim_id)
+                        c.push = broken_push
+                    elif tr in ('close-at-round', 'reset-at-round'):
                         world.add_timer(max(0.0, tk - world.now) + rng.choice([0.0, 0.0, 1e-5]),
                                         (lambda c=c, tr=tr: env.net.server_close(c, reset=(tr == 'reset-at-round'))), label='server-close')
-                    else:
+                    elif tr not in SEND_FAULTS:
                         plan[cid] = tr
                 rows.append({'c': c, 'o': o, 'cid': cid, 'alive': alive, 'busy': busy, 'tr': tr, 'ambiguous': ambiguous, 'snap': snapshot(c) if alive else None,
                              'control': bool(c.is_control_connection)})
@@ -299,6 +307,11 @@ def run_history(seed, quick):
                         raise RuntimeError("harness: server close was not delivered")
                     # if the heartbeat did not get to tell the owner in this round, the next round finds the dead connection listed (judged there)
                     continue
+                if tr in SEND_FAULTS:
+                    if n_opt:
+                        raise RuntimeError("harness: a heartbeat arrived although the connection's send step was broken")
+                    n_opt = 1          # judged below like any other failed heartbeat: out of service and the owner told
+                    stats['send_faults'] += 1
                 if n_opt == 0 and mode == 'cluster' and (c.is_closed or c.is_defunct):
                     # closed by its owner during the round before the heartbeat reached it (a sibling's failure shut the pool down, the
                     # control connection moved because its host went down): not this connection's heartbeat
@@ -492,6 +505,7 @@ def run(ctx):
                          ('ambiguous', 'connections_born_during_a_round_not_judged'), ('slow_ok', 'heartbeats_answered_late_within_timeout'),
                          ('rounds_3_slow', 'rounds_with_3_or_more_staggered_late_answers'),
                          ('late_answers', 'late_answers_to_timed_out_requests_delivered'),
+                         ('send_faults', 'heartbeats_whose_send_step_raised_a_non_connection_error'),
                          ('busy_by_late_answer_only', 'connection_rounds_busy_only_by_a_late_answer_to_an_orphaned_request')):
             ctx.count(name, st[k_])
         if harness and not viol:
@@ -512,5 +526,5 @@ def run(ctx):
                           "heartbeats_unanswered": 20 * k, "connections_closed_at_the_round": 20 * k, "dead_connections_found_by_heartbeat": 10 * k,
                           "capacity_conservation_checks": 500 * k, "control_connection_rounds": 100 * k, "histories_cluster": 40 * k,
                           "histories_holders": 40 * k, "heartbeats_answered_late_within_timeout": 150 * k,
-                          "rounds_with_3_or_more_staggered_late_answers": 20 * k,
+                          "rounds_with_3_or_more_staggered_late_answers": 20 * k, "heartbeats_whose_send_step_raised_a_non_connection_error": 40 * k,
                           "connection_rounds_busy_only_by_a_late_answer_to_an_orphaned_request": 40 * k}
